@@ -218,7 +218,7 @@ def gen_doperand(rng):
 
 def gen_xtok(rng):
     if rng.random() < 0.5:
-        return ['c', ord(rng.choice('abcxyz'))]
+        return ['c', ord(rng.choice('abcxyz12.!*'))]      # two character tokens: letters, digits, punctuation
     return ['m', rng.randrange(2), [ord(c) for c in rng.choice(['', 'a', 'ab', 'ba', 'abc', 'xy'])]]
 
 
@@ -262,6 +262,12 @@ def gen_body(env, depth, switches, maxitems=4):
         if depth > 0 and r < 0.42:
             t = gen_test(rng, switches)
             n = rng.randint(1, 4) if t[0] == 'K' else 1
+            if rng.random() < 0.1:
+                # every branch adds a number to one counter: may be written \addtocounter{c}{\if.. n1\else n2\fi}
+                # (the conditional is then expanded by readInteger while the argument is read)
+                c = rng.randrange(NCOUNTERS)
+                out.append(['c', t, True, [[['t', ['a', c, rng.randint(-3, 9)]]] for _ in range(n)], [['t', ['a', c, rng.randint(-3, 9)]]]])
+                continue
             he = rng.random() < 0.6
             cases = [gen_body(env, depth - 1, switches, 3) for _ in range(n)]
             e = gen_body(env, depth - 1, switches, 3) if he else []
@@ -387,8 +393,8 @@ def generate(ctx):
     for _ in range(n // 3):            # literal-structured operands (every integer form of TeX's grammar) with the TeX oracle
         k = rng.choice(['num', 'num', 'odd', 'case', 'dim'])
         if k == 'dim':
-            lit = gen_dimlit5(rng)
-            lit += [str(ord(rng.choice('<>=')))] + (lit if rng.random() < 0.15 else gen_dimlit5(rng))
+            la, lb = gen_dim_pair(rng)
+            lit = la[0] + [str(ord(rng.choice('<>=')))] + lb[0]
         else:
             lit = gen_intlit5(rng, k == 'case')
         if k == 'num':
@@ -453,6 +459,11 @@ def _corpus_inline():
         mk('cond', z + ' [ cK:l0 1 2 [ ] [ tc66 ] [ tc67 ] tc88 ]', {'seed': 5, 'bare': 1.0}),
         mk('cond', z + ' [ cN:l2:lt:l1 0 1 [ ] tc88 ]', {'seed': 5, 'bare': 1.0}),
         mk('condraw', 'case c49 x102.105 c88', {}),
+        # dimensions that differ by less than one scaled point: 0.00001pt > 0pt, 1.5pt = 1.50001pt, a register holding 0.00001pt
+        mk('cond', '0,0,0,0,0,0;0,0,0;1,150000,0 [ cD:l1:gt:l0 1 1 [ tc89 ] [ tc78 ] cD:l150000:eq:l150001 1 1 [ tc89 ] [ tc78 ] '
+                   'cD:r0:eq:l0 1 1 [ tc89 ] [ tc78 ] cD:-l1:lt:l0 1 1 [ tc89 ] [ tc78 ] cD:k2x0:gt:r0 0 1 [ tc71 ] ]', {'seed': 4, 'fine': True}),
+        mk('testlit', 'dim M S 0 0 B 0 p 0.0.0.0.1 U 0 - p0 112.116 0 62 M S 0 0 B 0 n - U 0 - p0 112.116 0 | x114.101.108.97.120', {}),
+        mk('testlit', 'dim M S 0 0 B 1 p 5 U 0 - p0 112.116 0 61 M S 0 0 B 1 p 5.0.0.0.1 U 0 - p0 112.116 0 | x114.101.108.97.120', {}),
         mk('toks', z + ' iF oc65', {'seed': 1}),
         mk('toks', z + ' fi oc65 else oc66 or oc67', {'seed': 1}),
     ]
@@ -487,8 +498,9 @@ def xtname(x): return 'xt' + letters(x[1]) + 'q' + ''.join(chr(c) for c in x[2])
 
 
 class Speller:
-    def __init__(self, seed, plain=False, bare=0.35):
+    def __init__(self, seed, plain=False, bare=0.35, fine=False):
         self.rng = random.Random(seed)
+        self.fine = fine            # dimensions are written in units of 0.00001pt (0.65536 sp) instead of whole sp
         self.bare = bare            # how often a number is terminated as authors do (\else/\or/\fi, or a blank) instead of \relax
         self.ns = seed              # naming seed of the \newif switches
         self.plain = plain          # no wrappers (used for the toks stream)
@@ -526,6 +538,8 @@ class Speller:
         if o[0] == 'r': return '\\%s' % DREG[o[1]] + (' ' if self.rng.random() < 0.3 else '')
         if o[0] == 'k': return '%d\\%s' % (o[1], DREG[o[2]]) + (' ' if self.rng.random() < 0.3 else '')
         v = o[1]
+        if self.fine:
+            return fine_pt(v)
         opts = ['%dsp' % v]
         if v % 65536 == 0: opts += ['%dpt' % (v // 65536)] * 3
         elif v % 32768 == 0: opts += [('-' if v < 0 else '') + '%d.5pt' % (abs(v) // 65536)] * 3
@@ -581,6 +595,13 @@ class Speller:
                 param = (ops[0], '#1')
         if not self.plain and t[0] != 'D' and rng.random() < 0.3 and all(pure_letters(b) for b in cases + [e]):
             return self.csname_item(t, he, cases, e)
+        if not self.plain and he and rng.random() < 0.6 and number_branches(cases + [e]) and not ends_with_macro_number(t):
+            # the conditional inside a number that is being scanned: \addtocounter{c}{\if.. n1\or n2\else n3\fi}
+            s = self.test(t)
+            if s.endswith('\\relax '):
+                s = s[:-len('\\relax ')] + ' '
+            s += '\\or '.join(str(b[0][1][2]) for b in cases) + '\\else ' + str(e[0][1][2]) + '\\fi'
+            return '\\addtocounter{%s}{%s}' % (CNT[e[0][1][1]], s)
         inner_indef = indef or param is not None
         s = self.test(t, param)
         bodies = [self.body(b, inner_indef) for b in cases]
@@ -664,6 +685,19 @@ class Speller:
         return ''.join(self.one(it, indef, stack) for it in seg)
 
 
+def number_branches(bodies):
+    return all(len(b) == 1 and b[0][0] == 't' and b[0][1][0] == 'a' and b[0][1][1] == bodies[0][0][1][1] for b in bodies) \
+        if all(len(b) == 1 and b[0][0] == 't' for b in bodies) else False
+
+
+def ends_with_macro_number(t):
+    """the last operand of the test is a macro producing digits: the digits of the branch would be appended to it"""
+    if t[0] == 'N': o = t[3]
+    elif t[0] in 'OK': o = t[1]
+    else: return False
+    return find_mac(o) is not None
+
+
 def pure_letters(b):
     return all(it[0] == 't' and it[1][0] == 'c' and chr(it[1][1]).isalpha() for it in b)
 
@@ -685,6 +719,40 @@ def balanced(seg):
     return d == 0
 
 
+def fine_pt(v):
+    """the model's integer dimension v written in units of 0.00001pt: v = 150001 -> 1.50001pt, v = -1 -> -0.00001pt.
+    Comparisons are scale invariant (theorem ifdim_scale_invariant), so the model is unchanged; differences below one
+    scaled point now decide the branch."""
+    return '%s%d.%05dpt' % ('-' if v < 0 else '', abs(v) // 100000, abs(v) % 100000)
+
+
+def _dim_tests(body):
+    for it in body:
+        if it[0] == 'c':
+            if it[1][0] == 'D':
+                yield it[1]
+            for b in it[3] + [it[4]]:
+                for t in _dim_tests(b):
+                    yield t
+
+
+def fine_ok(body, dregs):
+    """the fine unit may be used when the float arithmetic of the code decides every \\ifdim of the program as exact
+    arithmetic does (3\\reg computed in floats need not equal the literal of the same value)"""
+    fl = lambda v: float(fine_pt(v)[:-2]) * 65536.0
+    def val(o):
+        if o[0] == '-':
+            e, f = val(o[1]); return -e, -f
+        if o[0] == 'l': return o[1], fl(o[1])
+        if o[0] == 'r': return dregs[o[1]], fl(dregs[o[1]])
+        return o[1] * dregs[o[2]], float(o[1]) * fl(dregs[o[2]])
+    for t in _dim_tests(body):
+        (ea, fa), (eb, fb) = val(t[1]), val(t[3])
+        if (ea < eb) != (fa < fb) or (ea == eb) != (fa == fb):
+            return False
+    return True
+
+
 def preamble(init, sp, cls, regs_in_tex=True):
     s = '\\documentclass{article}' if cls else ''
     s += '\\begin{document}'
@@ -696,7 +764,7 @@ def preamble(init, sp, cls, regs_in_tex=True):
     for i, v in enumerate(rs):
         s += '\\newcount\\%s \\%s=%d\\relax ' % (REG[i], REG[i], v)
     for i, v in enumerate(ds):
-        s += '\\newdimen\\%s \\%s=%dsp\\relax ' % (DREG[i], DREG[i], v)
+        s += '\\newdimen\\%s \\%s=%s\\relax ' % (DREG[i], DREG[i], fine_pt(v) if sp.fine else '%dsp' % v)
     for k in range(NSWITCHES):
         s += '\\newif\\if%s ' % swname(k, sp.ns)
     s += '\\def\\dfa{}\\def\\dfb{}'
@@ -720,7 +788,7 @@ def run_document(src, ns=0, regs=None):
         # a register assignment inside a document keeps the whole document reachable after the run (plasTeX-level retention,
         # about 240 objects each): most documents get their registers through the Python API instead, 1 in 8 by \newcount/\newdimen
         for i, v in enumerate(regs[0]): doc.context.newcount(REG[i], v)
-        for i, v in enumerate(regs[1]): doc.context.newdimen(DREG[i], v)
+        for i, v in enumerate(regs[1]): doc.context.newdimen(DREG[i], v)      # an int (sp) or a string such as '0.00003pt'
     tex.input(src)
     try:
         try:
@@ -996,26 +1064,73 @@ def gen_intlit5(rng, small=False):
     return ['I'] + gen_signs5(rng) + [kind, v, '1' if sp else '0']
 
 
-def gen_dimlit5(rng):
-    """a dimension literal of TeX's grammar in the word format of Driver/C05.lean (units pt / pc / sp and registers, binary
-    fractions: exactly representable, so the float comparison of the code is the rational one)"""
+def gen_dimlit5(rng, near=None):
+    """a dimension literal of TeX's grammar in the word format of Driver/C05.lean (units pt / pc / sp, registers and register
+    multiples; fractions of every kind, also far below one scaled point: 0.00001pt, .3sp).  near = a literal (as returned
+    by this function) of which a variant differing in the fifth decimal is wanted.  Returns (words, exact value in sp)."""
+    from fractions import Fraction
+    if near is not None and near[0][near[0].index('B') if 'B' in near[0] else 0] == 'B':
+        w = list(near[0])
+        i = w.index('B')
+        ip, sep, fp = w[i + 1], w[i + 2], w[i + 3]
+        digs = [] if fp == '-' else fp.split('.')
+        digs = (digs + ['0'] * 5)[:max(len(digs), 4)] + [str(rng.choice([1, 1, 3, 9]))]
+        w[i + 1], w[i + 2], w[i + 3] = ip, ('p' if sep == 'n' else sep), '.'.join(digs)
+        return w, dimlit_value(w)
     sg = gen_signs5(rng)
     if rng.random() < 0.2:
-        return ['M'] + sg + ['R', str(rng.choice([0, 1, 65536, -32768, 98304, 786432]))]
-    ip = rng.choice(['0', '1', '2', '3', '1.2', '-', '7'])
+        w = ['M'] + sg + ['R', str(rng.choice([0, 1, 65536, -32768, 98304, 786432]))]
+        return w, dimlit_value(w)
+    ip = rng.choice(['0', '1', '2', '3', '1.2', '-', '7', '0', '1'])
     r = rng.random()
-    if ip == '-': sep, fp = rng.choice('cp'), rng.choice(['5', '2.5', '7.5', '0'])
-    elif r < 0.5: sep, fp = 'n', '-'
-    else: sep, fp = rng.choice('cp'), rng.choice(['-', '5', '2.5', '1.2.5', '0'])
+    FP = ['5', '2.5', '7.5', '0', '0.0.0.0.1', '5.0.0.0.1', '3', '0.0.0.3', '9.9.9.9.9', '1.2.5', '0.0.0.0.0.1']
+    if ip == '-': sep, fp = rng.choice('cp'), rng.choice(FP)
+    elif r < 0.4: sep, fp = 'n', '-'
+    else: sep, fp = rng.choice('cp'), rng.choice(['-'] + FP)
     if rng.random() < 0.15:
         unit = ['0', '-', 'r%d' % rng.choice([1, 65536, -32768, 3]), '-', '0']
     else:
-        i, name = rng.choice([(0, 'pt'), (0, 'pt'), (1, 'pc'), (8, 'sp')])
-        if name == 'sp' and (sep != 'n'): sep, fp = 'n', '-'
+        i, name = rng.choice([(0, 'pt'), (0, 'pt'), (0, 'pt'), (1, 'pc'), (8, 'sp')])
         spell = ''.join(ch.upper() if rng.random() < 0.2 else ch for ch in name)
         tru = '-' if rng.random() < 0.8 else dots(''.join(ch.upper() if rng.random() < 0.3 else ch for ch in 'true')) + '/' + str(rng.choice([0, 1]))
         unit = [str(rng.choice([0, 0, 1])), tru, 'p%d' % i, dots(spell), rng.choice('01')]
-    return ['M'] + sg + ['B', ip, sep, fp, 'U'] + unit
+    w = ['M'] + sg + ['B', ip, sep, fp, 'U'] + unit
+    return w, dimlit_value(w)
+
+
+def dimlit_value(w):
+    """exact value (Fraction, sp) of a dimension literal in the word format above"""
+    from fractions import Fraction
+    n = int(w[3])
+    minus = sum(1 for x in w[4:4 + n] if x[0] == 'm')
+    r = w[4 + n:]
+    if r[0] == 'R':
+        v = Fraction(int(r[1]))
+    else:
+        ip, fp, kind = r[1], r[3], r[7]
+        dec = Fraction(int(''.join(ip.split('.'))) if ip != '-' else 0)
+        if fp != '-':
+            d = fp.split('.')
+            dec += Fraction(int(''.join(d)), 10 ** len(d))
+        unit = {'p0': 65536, 'p1': 12 * 65536, 'p8': 1}.get(kind)
+        if unit is None:
+            unit = int(kind[1:])
+        v = dec * unit
+    return -v if minus % 2 else v
+
+
+def gen_dim_pair(rng):
+    """two dimension literals whose comparison is decided alike by exact and by float arithmetic: identical spellings, or values
+    that differ by more than float noise - but possibly by far less than one scaled point"""
+    a = gen_dimlit5(rng)
+    for _ in range(20):
+        r = rng.random()
+        if r < 0.15: b = (list(a[0]), a[1])
+        elif r < 0.45: b = gen_dimlit5(rng, near=a)
+        else: b = gen_dimlit5(rng)
+        if b[0] == a[0] or abs(a[1] - b[1]) > max(abs(a[1]), abs(b[1]), 1) * 1e-9:
+            return (a, b) if rng.random() < 0.5 else (b, a)
+    return a, (list(a[0]), a[1])
 
 
 CSNAMES = ['relax', 'iftrue', 'iffalse', 'ifx', 'ifnum', 'iffoo', 'ifthenelse', 'if', 'ifi', 'fi', 'fi', 'fi', 'file', 'fil', 'fill', 'f',
@@ -1053,7 +1168,7 @@ def gen_operand5(rng, dim):
         out.append('r%d' % (rng.choice([0, 1, 3, -2, 7, 65536, 98304]) if dim else rng.choice([0, 1, 2, 3, -2, 7])))
         return out
     if dim:
-        out += [w_ch(c) for c in rng.choice(['0', '1', '2', '3', '12', '1.5', '.5', '2.25', '1,5', '3.'])]
+        out += [w_ch(c) for c in rng.choice(['0', '1', '2', '3', '12', '1.5', '.5', '2.25', '1,5', '3.', '0.00001', '1.50001', '.3', '2.00001'])]
         if rng.random() < 0.3: out.append('s')
         if rng.random() < 0.15:
             out.append('r%d' % rng.choice([1, 65536, -32768]))
@@ -1114,9 +1229,12 @@ def _impl(case, aux):
     init = parse_init(f[0])
     if st == 'cond':
         body, _ = p_body(f, 1)
-        sp = Speller(seed, bare=(case.meta or {}).get('bare', 0.35))
+        fine = (case.meta or {}).get('fine', seed % 3 == 1) and fine_ok(body, init[2])
+        sp = Speller(seed, bare=(case.meta or {}).get('bare', 0.35), fine=bool(fine))
         text = sp.body(body, False)
         src = preamble(init, sp, seed % 2 == 0, seed % 8 == 3) + text + '\\end{document}'
+        if fine:
+            init = [init[0], init[1], [fine_pt(v) for v in init[2]]]
     elif st == 'toks':
         sp = Speller(seed, plain=True)
         text = ''.join(tok_tex(w, sp) for w in f[1:])
@@ -1249,6 +1367,7 @@ def shrink(ctx, o, evaluate):
         cs = []
         for v in cands[:60]:
             c = mk_cond(f[0], v, (best.case.meta or {}).get('seed', 0))
+            c.meta.update({k: x for k, x in (best.case.meta or {}).items() if k in ('bare', 'fine')})
             c.origin = 'shrink'
             cs.append(c)
         nxt = None
